@@ -99,6 +99,11 @@
 (*             key kind valid are the genuine tokens) or "other" (share    *)
 (*             kind otherEon / key kind wrong are the genuine tokens, and  *)
 (*             "valid" ones are tokens of a superseded eon key)            *)
+(* recv.pos    where the receiver's address stands in the keypers list of  *)
+(*             every tendermint_batch_config row it is a member of:        *)
+(*             "first" | "middle" | "last" (not a member at all: set class *)
+(*             NotMember).  GetKeyperIndex walks the whole list, so the    *)
+(*             position enters no operator below.                          *)
 (* recv.layout "rich": the database holds one config per set class;        *)
 (*             "solo": only the config the message names                   *)
 (* recv.stored keys stored under the named eon: "none", "wrong1" (W for    *)
@@ -126,6 +131,7 @@ ShareKinds == {"valid", "otherKeyper", "otherId", "otherEon", "swap", "garbage",
 KeyKinds   == {"valid", "storedEqual", "wrong", "swap", "badlen", "undecodable"}
 Extras     == {"none", "gnosis", "service", "optimism"}
 Layouts    == {"rich", "solo"}
+Positions  == {"first", "middle", "last"}
 StoredCls  == {"none", "wrong1", "wrongAll", "validAll"}
 SharesCls  == {"none", "k2"}
 
